@@ -38,29 +38,37 @@ type lock struct {
 
 // Lock locks a locker by (optionally) allocating, increasing the ref count,
 // and locking
-func (l *locker) Lock(ctx context.Context, k interface{}) error {
+//
+// The returned lock is what Unlock needs: a key that holds a NaN is never found
+// in the map again.
+func (l *locker) Lock(ctx context.Context, k interface{}) (*lock, error) {
+	m := l.acquire(k)
+	return m, m.mu.Lock(ctx)
+}
+
+func (l *locker) acquire(k interface{}) *lock {
 	l.mu.Lock()
+	// (deferred: a key that cannot be hashed makes the lookup panic)
+	defer l.mu.Unlock()
 	m, ok := l.m[k]
 	if !ok {
 		m = new(lock)
 		l.m[k] = m
 	}
 	m.ref++
-	l.mu.Unlock()
-	return m.mu.Lock(ctx)
+	return m
 }
 
 // Unlock unlocks a locker by unlocking, decreasing the ref count, and
 // (optionally) deleting
-func (l *locker) Unlock(k interface{}) {
+func (l *locker) Unlock(k interface{}, m *lock) {
 	l.mu.Lock()
-	m := l.m[k]
+	defer l.mu.Unlock()
 	m.mu.Unlock()
 	m.ref--
 	if m.ref == 0 {
 		delete(l.m, k)
 	}
-	l.mu.Unlock()
 }
 
 type computation struct {
@@ -293,10 +301,11 @@ func Cache(ctx context.Context, key interface{}, f ComputeFunc) (interface{}, er
 	cache := ctx.Value(cacheKey{}).(*cache)
 	computation := ctx.Value(computationKey{}).(*computation)
 
-	if err := cache.locker.Lock(ctx, key); err != nil {
+	held, err := cache.locker.Lock(ctx, key)
+	if err != nil {
 		return nil, err
 	}
-	defer cache.locker.Unlock(key)
+	defer cache.locker.Unlock(key, held)
 
 	if child := cache.get(key); child != nil {
 		child.node.addOut(&computation.node)
